@@ -651,7 +651,7 @@ def analysis_check(ctx, hist):
     n_or = 3
     goals = [{"a": 1}, {"b": 1}, {"a": 2}, {"a": 1, "b": 1}, {"a": 1, "f": 1}]
     gtxt = ["a", "b", "a**2", "a*b", "a*f"]
-    progs = [T.gen_analysable(rng) for _ in range(nprog)]
+    progs = T.fixed_analysable() + [T.gen_analysable(rng) for _ in range(nprog)]
     tasks, meta = [], []
     NS = 3
     for p in progs:
